@@ -152,12 +152,37 @@ def probe_node(inp) -> ProbeResult:
         if again != first:
             res.fail("not_a_function_of_its_inputs",
                      f"columns {src}: a second inference after the caller edited the first result gives {again}, first was {first}")
+    _probe_builder(res, inp, src)
     if any(k in src for k in exact):
         res.tags.append("c17:exact_required_present")
     if _similar(src, STANDARD + FEATURE_KEYS + DISPLAY):
         res.tags.append("c17:similar_columns")
         res.nontrivial = (tuple(sorted(src)), tuple(inp["required"]), inp["ndim"])
     return res
+
+
+def _probe_builder(res, inp, src):
+    """The same inference through the builder (header read from a table; the dimensionality
+    already known, as after prepare(source, segmentation=...), or not)."""
+    import pandas as pd
+
+    from funtracks.import_export import CSVTracksBuilder
+
+    sub = ProbeResult()
+    try:
+        b = CSVTracksBuilder()
+        b.read_header(pd.DataFrame(columns=list(src)))
+        if inp["ndim"] is not None:
+            b.ndim = inp["ndim"]
+            res.tags.append("c17:builder_ndim_known")
+        mapping = b.infer_node_name_map()
+    except Exception as e:  # noqa: BLE001
+        res.fail(f"builder:exception:{type(e).__name__}", f"builder.infer_node_name_map() on {src} raised {e!r}")
+        return
+    _check(sub, src, mapping, ["time", "id", "parent_id", "seg_id"])
+    for bkt, msg in sub.failures.items():
+        res.fail("builder:" + bkt, f"builder (ndim {inp['ndim']}): " + msg)
+    res.evaluations += 1
 
 
 def probe_edge(inp) -> ProbeResult:
